@@ -8,3 +8,4 @@ pub mod sgen;
 
 #[global_allocator]
 static GLOBAL: rec::Rec = rec::Rec;
+pub mod sizes;
